@@ -1,7 +1,7 @@
 """C02 — parsing is total, lossless and position-accurate.
-Theorems: coq/Props/C02.v.  Model: coq/Syntax/{Lexer,Parser}.v.
-Implementation: mesonbuild/mparser.py (Lexer, Parser), ast/printer.py (RawPrinter)."""
-import itertools, json, os, glob
+Theorems: coq/Props/C02.v.  Model: coq/Syntax/{Lexer,Parser,Trivia,RawPrint}.v.
+Implementation: mesonbuild/mparser.py (Lexer, Parser), ast/visitor.py (FullAstVisitor), ast/printer.py (RawPrinter)."""
+import itertools, json, os, glob, time
 from common import *
 
 # token alphabet for exhaustive / soup generation (canonical spacing added by the renderer)
@@ -31,6 +31,10 @@ def render(tokens, rng=None):
 # pair of adjacent tokens (inside brackets: newlines, indentation, comments, continuations).
 IN_TRIVIA = [' ', ' ', '', '  ', '\t', '\n', '\n    ', ' # c\n  ', ' \\\n  ', '\n\n', ' #\n', '\n# c\n']
 OUT_TRIVIA = [' ', ' ', ' ', '', '  ', '\t', ' \\\n ', ' \\ # c\n']
+
+
+FILE_START = [' ', '  ', '\t', '# c\n', '\n', '\n\n', '  # c\n\n', ' \\\n', ' \\ # c\n  ', '#\n#\n', '\n  ']
+FILE_END = [' ', '  ', ' # c', '# c', '\n', '\n\n', '\n  # c\n', '\n# c', '\t\n', ' \\\n', ' \\\n ', '\n  ']
 
 
 def wordlike(t):
@@ -144,7 +148,13 @@ def g_program(rng):
             toks.append('\n')
     if rng.random() < 0.2 and toks:
         toks.pop()
-    return render_tokens(rng, toks, rich=rng.choice([0.0, 0.2, 0.5, 0.9]))
+    body = render_tokens(rng, toks, rich=rng.choice([0.0, 0.2, 0.5, 0.9]))
+    # trivia at the very start and the very end of the file
+    if rng.random() < 0.35:
+        body = rng.choice(FILE_START) + body
+    if rng.random() < 0.35:
+        body = body + rng.choice(FILE_END)
+    return body
 
 
 def mutate(rng, s):
@@ -202,17 +212,48 @@ CORPUS = ["(a not\n in b)", "(a not # c\n  in b)", "x = a not \\\n   in b", "[a 
           "x = a[1", "x = a[1]]", "x = a.b(", "x = a.b)", "x = a.1()", "x = a.'s'()", "x = a.b", "x = a.b c", "x = 'a'.format()", "x = [1][0]",
           "x = {}['a']", "x = (1)[0]", "x = f()()", "foreach i : [1]\nif i\ncontinue\nendif\nendforeach", "if a\nif b\nendif\nendif", "if a\nforeach\nendif"]
 
+# trivia-focused corner cases: comments, continuations, blank lines, CRLF, file start/end, around
+# 'not in', inside empty argument lists, before closing brackets, after block ends
+TRIVIA_CORPUS = ["# c\nx = 1", "  x = 1  ", "\n\nx = 1\n\n", "x = f( )", "x = f(\n)", "x = f( # c\n )", "x = [ ]", "x = [\n]", "x = { }",
+                 "x = {\n # c\n}", "x = [1, 2 ,\n]", "x = [1 # c\n, 2 # d\n]", "f(a ,b : 1 , c : 2 ,)", "x = a.b( ).c( \n )", "x = a [ 1 ] [ 2 ]",
+                 "x = ( a )", "x = (\n a\n)\n", "x = a ? b : c # t\n", "x = not a", "x = - a", "x = a not in b # c", "x = (a not  in b)",
+                 "x = (a not\tin\tb)", "x = (a # c\n not # d\n in # e\n b)", "x = a not \\\n in \\\n b",
+                 "if a # c\n  # d\n  x = 1 # e\n  # f\nelif b # g\n  y = 2\nelse # h\n  z = 3\nendif # i\n# j",
+                 "foreach a , b : c # c\n  continue # d\n  break # e\nendforeach # f", "if a\nendif", "if a\n\n\nendif\n",
+                 "if a\n  # only comment\nendif\n", "foreach x : y\n\n  # c\n\nendforeach", "x = 1 \\\n + 2", "x = 1 \\ # c\n + 2",
+                 "x \\\n = \\\n 1", "x = '''a\nb''' # c\n", "\\\nx = 1", "x = 1\n\\\n", "x = 1 \\\n", "if a \\\n and b\nendif", "x = 1\r\n",
+                 "x = [1,\r\n 2]\r\n", "# only a comment", "   ", "\n\n  \n", "# a\n# b\n", "\t# c", "x = 1 # c\n\n# d\n\ny = 2",
+                 "if a\n  if b\n    x = 1\n  endif # c\n  # d\nendif", "if a\n  foreach i : l\n  endforeach\n  # tail\nendif\n",
+                 "x = f(a : 1 , # c\n b : 2 # d\n )", "x = {'a' : 1 , # c\n 'b' : 2 # d\n }", "f(a, b # c\n)", "f(a, # c\n)", "(a) # c\n", "a # c\n",
+                 "a.b() # c\n", "a[0] # c\n", "-a # c\n", "not a # c\n", "a+b # c\n", "a ? b : c # c\n", "x += 1 # c\n", "continue # c\n",
+                 "break # c\n", "true # c\n", "1 # c\n", "'s' # c\n", "[1] # c\n", "{} # c\n", "f() # c\n", "(a)\n# c\n", "if a\nendif # c\n# d\n",
+                 "foreach i : l\nendforeach # c\n# d\n", "if a\n  (b)\n  # c\nendif", "if\nendif", "if a\nelse\nendif", "if a\nelse # c\n # d\nendif",
+                 "if a\nelif b # c\n # d\nelif c\nendif # e", "f(a: 1, b)", "f(a: 1, b, c: 2) # c", "f(a : 1 , b , c : 2 , d)", "f( a : 1 , b )",
+                 "x = [ # c\n]", "x = f(a,\n  # c\n  b,\n  # d\n)", "x = (a) # c\n# d\n", "foreach i : l # c\n# d\nendforeach", " # c\n # d\nx=1",
+                 "if a\n x=1\nendif\n\n\n# end", "if a # c1\n\n # c2\n\n x = 1\n\nendif", "x = a . b ( ) . c ( )", "x = a. # c\n b()", "(x = a.\n b())"]
+
 
 def replay(ctx):
     rec = json.load(open(ctx.replay))
-    r = rec['replay']
-    code = r['code']
-    print('input:', json.dumps(code))
-    res = run_impl('c02.py', {'cases': [['parse', [code]], ['lex', [code]]], 'oracle': [code]})
-    print('implementation parse:', res['results'][0][:400])
-    print('property clauses on the implementation:', res['oracle'][0])
-    if ctx.build('Props/C02.v', 'Syntax/Extract.v', 'C02'):
-        print('model parse         :', ctx.run_model([('parse', [code])])[0][:400])
+    if 'replay' in rec and 'code' in rec['replay']:
+        codes = [rec['replay']['code']]
+    else:
+        # a correspondence replay (model and implementation disagree): the recorded inputs
+        codes = list(dict.fromkeys(d['code'] for d in rec.get('correspondence_disagreements', [])))[:5]
+    built = ctx.build('Props/C02.v', 'Syntax/Extract.v', 'C02')
+    for code in codes:
+        print('input:', json.dumps(code))
+        res = run_impl('c02.py', {'cases': [['parse', [code]], ['lex', [code]], ['trivia', [code]]], 'oracle': [code]})
+        print('implementation parse :', res['results'][0][:400])
+        print('implementation trivia:', json.dumps(res['results'][2][:600]))
+        print('property clauses on the implementation:', res['oracle'][0])
+        if built:
+            mo = ctx.run_model([('parse', [code]), ('lex', [code]), ('trivia', [code])])
+            print('model parse          :', mo[0][:400])
+            print('model trivia         :', json.dumps(mo[2][:600]))
+            for fn, a, b in (('parse', res['results'][0], mo[0]), ('lex', res['results'][1], mo[1]), ('trivia', res['results'][2], mo[2])):
+                if a != b and not (fn == 'trivia' and not a.startswith('OK:')):
+                    print('DISAGREE on %s' % fn)
     return 0
 
 
@@ -249,7 +290,10 @@ def run(ctx):
         return replay(ctx)
     rng = ctx.rng
     thorough = ctx.tier == 'thorough'
+    phase = {}
+    t0 = time.time()
     built = ctx.build('Props/C02.v', 'Syntax/Extract.v', 'C02')
+    phase['build'] = round(time.time() - t0, 1); t0 = time.time()
     inputs = []
     src = {}
 
@@ -258,6 +302,8 @@ def run(ctx):
         src[kind] = src.get(kind, 0) + 1
     for c in CORPUS:
         add(c, 'corpus')
+    for c in TRIVIA_CORPUS:
+        add(c, 'trivia-corpus')
     add('x = ' + '(' * 200 + '1' + ')' * 200 + '\n', 'corpus')
     # exhaustive token sequences with canonical spacing
     L = 4 if thorough else 3
@@ -309,19 +355,22 @@ def run(ctx):
     modelable = [c for c in inputs if in_model(c)]
     ctx.extra['out_of_model'] = len(inputs) - len(modelable)
 
+    phase['generate'] = round(time.time() - t0, 1); t0 = time.time()
     # implementation: parse + lex renderings, and the property's clauses
     CH = 4000
     chunks = [inputs[i:i + CH] for i in range(0, len(inputs), CH)]
 
     def work(ch):
-        return run_impl('c02.py', {'cases': [['parse', [c]] for c in ch] + [['lex', [c]] for c in ch], 'oracle': ch})
+        return run_impl('c02.py', {'cases': [['parse', [c]] for c in ch] + [['lex', [c]] for c in ch] + [['trivia', [c]] for c in ch],
+                                   'oracle': ch})
     outs = pmap(work, chunks)
-    impl_parse, impl_lex, orc = {}, {}, {}
+    impl_parse, impl_lex, impl_triv, orc = {}, {}, {}, {}
     for ch, o in zip(chunks, outs):
         n = len(ch)
         for i, c in enumerate(ch):
             impl_parse[c] = o['results'][i]
             impl_lex[c] = o['results'][n + i]
+            impl_triv[c] = o['results'][2 * n + i]
             orc[c] = o['oracle'][i]
     stats = {'accepted': 0, 'rejected': 0, 'internal': 0}
     for c in inputs:
@@ -329,11 +378,36 @@ def run(ctx):
         stats['accepted' if r.startswith('OK') else 'rejected' if r.startswith('ERR') else 'internal'] += 1
     ctx.extra['implementation_outcomes'] = stats
 
+    phase['implementation'] = round(time.time() - t0, 1); t0 = time.time()
     model_parse = {}
     if built:
-        cases = [('parse', [c]) for c in modelable] + [('lex', [c]) for c in modelable]
+        # trivia view: every accepted input (the tree with the whitespace text attached to every node,
+        # and the RawPrinter text)
+        accepted = [c for c in modelable if impl_triv[c].startswith('OK:')]
+        cases = [('parse', [c]) for c in modelable] + [('lex', [c]) for c in modelable] + [('trivia', [c]) for c in accepted]
         mo = ctx.run_model(cases, shards=NPROC)
+        phase['model'] = round(time.time() - t0, 1); t0 = time.time()
         n = len(modelable)
+        tstat = {'compared': len(accepted), 'model_pyerr': 0, 'with_comment': 0, 'with_continuation': 0, 'with_blank_line': 0,
+                 'with_not_in': 0, 'leading_trivia': 0, 'trailing_trivia_no_newline': 0, 'printed_differs_from_input': 0,
+                 'attached_whitespace_nodes': 0}
+        for j, c in enumerate(accepted):
+            mt = mo[2 * n + j]
+            it = impl_triv[c]
+            if mt == 'PYERR':
+                tstat['model_pyerr'] += 1
+            tstat['with_comment'] += '#' in c
+            tstat['with_continuation'] += '\\\n' in c or '\\ ' in c
+            tstat['with_blank_line'] += '\n\n' in c
+            tstat['with_not_in'] += 'not' in c and 'in' in c
+            tstat['leading_trivia'] += c[:1] in (' ', '\t', '#', '\n', '\\')
+            tstat['trailing_trivia_no_newline'] += c[-1:] in (' ', '\t') or ('#' in c.rsplit('\n', 1)[-1])
+            tstat['printed_differs_from_input'] += it.split('\x04', 1)[-1] != c
+            tstat['attached_whitespace_nodes'] += it.count('\x02') // 2
+            if it != mt and len(ctx.disagreements) < 100:
+                ctx.disagreements.append({'fn': 'trivia', 'code': c, 'implementation': it[:600], 'model': mt[:600]})
+        ctx.extra['trivia_view'] = tstat
+        ctx.cov['trivia_views_validated_against_impl'] = len(accepted)
         fuel = 0
         for i, c in enumerate(modelable):
             model_parse[c] = mo[i]
@@ -360,7 +434,9 @@ def run(ctx):
         small = [k for k in range(len(cases)) if len(cases[k][1][0]) < 200]
         rng.shuffle(small)
         small = small[:300]
+        phase['compare'] = round(time.time() - t0, 1); t0 = time.time()
         ctx.kernel_crosscheck('Syntax.Entry', [cases[k] for k in small], [mo[k] for k in small], limit=300)
+        phase['kernel_crosscheck'] = round(time.time() - t0, 1); t0 = time.time()
     for c in inputs[:2] + inputs[len(CORPUS) + 500:len(CORPUS) + 503] + inputs[-3:]:
         ctx.sample({'code': c[:200], 'implementation': impl_parse[c][:160]})
 
@@ -377,19 +453,22 @@ def run(ctx):
         if ident is None:
             ident = 'C02:%s:%s' % (f['kind'], json.dumps(c))
         ctx.violation(ident, 'on input %s: %s' % (json.dumps(c[:120]), json.dumps(f)), {'code': c, 'failure': f})
+    ctx.extra['phase_seconds'] = phase
     return ctx.finish(
         level='proof',
         trusted=['Coq 8.16.1 kernel (coqc, vm_compute; no native_compute)',
                  'extraction (ExtrOcamlBasic only) + OCaml + extract/driver.ml, cross-checked in-kernel on a sample each run',
                  'harness/check_C02.py generators, harness/impl/c02.py adapter (tree/token renderer, property clauses on the implementation)',
                  'modelled: mparser.py Lexer.lex, Parser (all of e1..e10, args, key_values, method/index calls, line, codeblock, if/foreach blocks), '
-                 'node positions; not modelled: attachment of whitespace/comment tokens to nodes and FullAstVisitor order (covered by the direct '
-                 'RawPrinter(parse(s)) == s test on the implementation), \\N{...} escapes, non-ASCII digits, testcase blocks'],
+                 'node positions, the attachment of whitespace/comment/eol tokens to nodes (getsym/current_ws, create_node, pre_whitespaces, not-in, '
+                 'end-of-block leftovers; coq/Syntax/Trivia.v) and RawPrinter/FullAstVisitor (coq/Syntax/RawPrint.v); not modelled (such inputs are only '
+                 'judged by the direct clauses on the implementation, count in out_of_model): \\N{...} escapes, non-ASCII digits; testcase blocks are not generated'],
         assumptions=['Print Assumptions: property theorems closed under the global context'],
         rule='inputs: hand corpus, all token sequences up to the stated bound over the small alphabet (canonical spacing), random token soups '
              'with trivia, odd-token soups, grammar-directed programs with trivia and their mutants, repository build files and mutants; '
-             'each is parsed and lexed by implementation and extracted model (tree, positions, error position compared) and judged by the '
-             'property clauses; distinct = distinct input texts')
+             'each is parsed and lexed by implementation and extracted model (tree, positions, error position compared), every accepted one '
+             'also rendered as the trivia view (per node of the real tree: kind, whitespace text and position; RawPrinter output) and compared '
+             'with the model, and each is judged by the property clauses; distinct = distinct input texts')
 
 
 _order_cache = {}
